@@ -12,12 +12,12 @@ import (
 
 func init() {
 	register(&Property{
-		ID:        "C33",
-		Roots:     []string{"strutil", "overlord/snapstate"},
-		Technique: "constant-table check of the character order (go/constant over the 256 entries); guarded-sink / value-provenance rules (SSA) on VersionCompare, compareSubversion, cmpNumeric; consumers' use of the result",
+		ID:          "C33",
+		Roots:       []string{"strutil", "overlord/snapstate"},
+		Technique:   "constant-table check of the character order (go/constant over the 256 entries); guarded-sink / value-provenance rules (SSA) on VersionCompare, compareSubversion, cmpNumeric; consumers' use of the result",
 		Explanation: "Structural necessary conditions for 'version comparison follows the Debian rules and is only applied to valid versions' (the ordering axioms themselves are value-level and not decided): (R1) VersionCompare compares only after versionIsValid accepted both operands, versionIsValid being exactly !matchEpoch; the revision is split off at the LAST hyphen (strings.LastIndexByte), with \"0\" standing for a missing revision, and the revisions are compared only when the upstream parts are equal; (R2) the character order table has 256 entries in which '~' sorts before the end of string, the end of string before everything else, digits are neutral, letters keep their ASCII order and every other character sorts after all letters, in ASCII order; (R3) compareSubversion takes its verdict from cmpNumeric exactly when both fragments are numeric and from cmpString otherwise (no shortcut verdicts), and cmpNumeric compares digit strings by length and bytes after trimming zeroes - it never converts to a fixed-width integer; (R4) the consumers (doInstall's snapd-downgrade test, changeIsSnapdDowngrade) treat exactly res==1 of VersionCompare(current, new) as a downgrade and propagate its error.",
-		NotDecided: "reflexivity, antisymmetry and transitivity of the resulting order; equivalence with dpkg --compare-versions (value-level; the existing table tests sample it).",
-		Run:        runC33,
+		NotDecided:  "reflexivity, antisymmetry and transitivity of the resulting order; equivalence with dpkg --compare-versions (value-level; the existing table tests sample it).",
+		Run:         runC33,
 	})
 }
 
@@ -35,6 +35,13 @@ func runC33(c *Ctx) {
 	subs := CallSites(vc, sub)
 	for i, sc := range subs {
 		c.Guarded(fmt.Sprintf("%s.VersionCompare#compare<=valid#%d", pkg, i+1), vc, sc, []Clause{{okA}, {okB}}, nil)
+	}
+	nOK := 0
+	for _, r := range ReturnsOf(vc) {
+		if IsSuccessReturn(r) {
+			nOK++
+			c.Guarded(fmt.Sprintf("%s.VersionCompare#verdict<=valid#%d", pkg, nOK), vc, r, []Clause{{okA}, {okB}}, nil)
+		}
 	}
 	c.Check(len(subs) == 2, pkg+".VersionCompare#two-comparisons", vc.Pos(), "upstream part, then revision", fmt.Sprintf("expected two compareSubversion calls (upstream, revision), found %d", len(subs)))
 	vv := P.Func(pkg + ".versionIsValid")
